@@ -26,6 +26,18 @@ CLAIMS = {
         technique="must-fact dataflow with history facts and summaries; return-path enumeration of the guard; "
                   "predicate normalisation for the expiry tests",
         design="5 C04"),
+    "C12": dict(
+        text="Check-before-read decided on every path: cursor-budget analysis of the DNS record decoder (every readshort/"
+             "readlong/readdata/readtxtbin spends from the budget set by the last dominating length check; helper "
+             "contracts are derived from their bodies) and of the name reader (every dereference covered by a comparison "
+             "with the datagram end, compression targets strictly inside); valid-length pairs for raw frames, decoded "
+             "payloads and handshake reply buffers (constant-offset reads, memcmp/strncmp/memcpy and hand-overs covered "
+             "by n >= offset+size or by a producer that zero-fills the buffer first); header reads and name termination. "
+             "Sanitizers cannot see this class (the buffers are 64 KB) and the tests pass exact-length buffers. Found and "
+             "now guards four repaired defects.",
+        technique="cursor budget abstract interpretation over linear forms + must-fact dominance with a small linear "
+                  "arithmetic prover (valid-length pairs)",
+        design="5 C12"),
     "C13": dict(
         text="Decides the whole stated property structurally for the configuration that builds here: a whole-program "
              "taint analysis from every recv*/read of the DNS socket to every system()/popen()/exec*() call shows that "
